@@ -185,8 +185,17 @@ impl NonOwningDecoder {
                 {
                     *num_init_seq_bytes += 1;
                 } else {
-                    *num_discarded_bytes += 1 + usize::from(*num_init_seq_bytes);
-                    *num_init_seq_bytes = 0;
+                    // mismatch: the bytes matched so far plus `b` may still end with a prefix of the
+                    // start sequence. A 0x1b after four or more matched bytes keeps four (`1b1b1b1b`
+                    // followed by another `1b`) or one (`1b1b1b1b 01.. 1b`) bytes matched.
+                    let still_matched = match (b, *num_init_seq_bytes) {
+                        (0x1b, 4) => 4,
+                        (0x1b, _) => 1,
+                        _ => 0,
+                    };
+                    *num_discarded_bytes +=
+                        1 + usize::from(*num_init_seq_bytes) - usize::from(still_matched);
+                    *num_init_seq_bytes = still_matched;
                 }
                 if *num_init_seq_bytes == 8 {
                     let num_discarded_bytes = *num_discarded_bytes;
